@@ -326,7 +326,7 @@ def run(chk, tier):
                 "(del/dup/swap/ins token, del/ins bracket, indent change, delete quote, insert NUL/0xE9/0x80/_/0x01/quote, cut) "
                 "at the sampled positions of each valid text, every directive soup of <= 3 (quick) / 4 (thorough) lines, the "
                 "size-stress family, every macro program that Macros.tla exports (1 definition: all shapes of level 3; 2-4 "
-                "definitions: strided; alone with -Fap, every 4th in a typed context, every 9th certified one inside a valid "
+                "definitions: strided; alone with -Fap, every 5th in a typed context, every 9th certified one inside a valid "
                 "text), every application that Calls.tla exports (signature <= 4 parameters x defaults x positional/keyword "
                 "split x overload context x one defect; strided in the quick tier), (c) seeded random texts; each compiled "
                 "once and its trace judged by TLC")
